@@ -647,20 +647,32 @@ class Array(metaclass=MetaArray):
             )
         if compatible:
             cls = self.__class__
-            info = None
-            if not cls._is_static_type and not isinstance(value, cls):
-                # dynamically sized items: the new items must fit in the
-                # size fixed at creation, which is kept
-                info = cls._inspect_args(value)
-                size = self._get_size()
-                if info.size > size:
-                    raise ValueError(
-                        f"{value} needs {info.size} bytes, only {size} available"
-                    )
-                info.size = size
-            cls._to_buffer(self._buffer, self._offset, value, info)
-            if info is not None:
-                self._offsets = info.offsets
+            if cls._is_static_type or is_integer(value):
+                cls._to_buffer(self._buffer, self._offset, value)
+            elif (
+                isinstance(value, cls)
+                and not cls._has_refs
+                and value._size == self._size
+                and np.array_equal(
+                    np.asarray(self._offsets), np.asarray(value._offsets)
+                )
+            ):  # same layout: plain copy
+                self._buffer.update_from_xbuffer(
+                    self._offset, value._buffer, value._offset, value._size
+                )
+            else:
+                # dynamically sized items keep the place and the space they
+                # were given at creation (handles and views cache the item
+                # offsets): update item by item, all or nothing
+                saved = self._buffer.to_bytearray(
+                    self._offset, self._get_size()
+                )
+                try:
+                    for idx in iter_index(self._shape, cls._order):
+                        self[idx] = get_item(value, idx)
+                except Exception:
+                    self._buffer.update_from_buffer(self._offset, saved)
+                    raise
         else:
             if is_integer(value):
                 raise ValueError(f"Cannot specify new length {ll} for {self}")
